@@ -18,7 +18,11 @@ def parseRead : String → Option Read
   | "to_wkt" => some .toWkt | "to_shapely" => some .toShapely | "contains" => some .contains
   | "intersects" => some .intersects | "circ_circle" => some .circCircle | "circ_rect" => some .circRect
   | "eq" => some .eq | "hash" => some .hash | "repr" => some .repr | "properties" => some .properties
-  | _ => none
+  | s =>
+      -- `x_<name>[@…]`: any other public read-only attribute / method of the class, enumerated by the harness from the
+      -- live library.  For the model it is a read like every other (no field changes; which memo slots it leaves filled is
+      -- not tied, and no theorem depends on that table).
+      if s.startsWith "x_" then some .repr else none
 
 /-- which observations a kind memoises at all: `cached_property` `bounds` (polygon `structures.py:351`, circle
     `:850`, ellipse `:967`, ring `:1216`, linestring `:1402`), `centroid` (polygon `:359`, linestring `:1410`, the
